@@ -14,17 +14,14 @@ structure SoundFacts (sp : Spec) : Prop where
   recomputes : sp.isStaleRecomputes = true
   wrapper : sp.wrapperChecks = true
   registered : ∀ v ∈ sp.views, v.attr ∈ sp.tempAttr
-  exclFree : ∀ c ∈ sp.clearSites, ∀ v ∈ sp.views, v.attr ∉ c.excl
+  exclFree : ∀ c ∈ sp.clearSites, ∀ v ∈ sp.views, exclMatches sp c.excl v.attr = false
 
 theorem sound_facts {sp : Spec} (h : Sound sp) : SoundFacts sp := by
   unfold Sound soundB at h
   simp only [Bool.and_eq_true, List.all_eq_true, List.contains_iff_mem,
     Bool.not_eq_eq_eq_not, Bool.not_true] at h
   obtain ⟨⟨⟨⟨⟨h1, h2⟩, h3⟩, h4⟩, h5⟩, h6⟩ := h
-  refine ⟨h1, h2, h3, h4, h5, ?_⟩
-  intro c hc v hv hmem
-  have := h6 c hc v hv
-  simp [hmem] at this
+  exact ⟨h1, h2, h3, h4, h5, h6⟩
 
 theorem mem_cachedAttrs {sp : Spec} {a : Attr} : a ∈ cachedAttrs sp ↔ ∃ v ∈ sp.views, v.attr = a := by
   simp [cachedAttrs]
@@ -38,11 +35,11 @@ theorem retained_nil {sp : Spec} (h : SoundFacts sp) {excl : List String} (hk : 
   intro p hp
   obtain ⟨v, hv, hva⟩ := mem_cachedAttrs.mp (hc p hp)
   have hreg : p.1 ∈ sp.tempAttr := hva ▸ h.registered v hv
-  have hex : p.1 ∉ excl := by
+  have hex : exclMatches sp excl p.1 = false := by
     unfold knownExcl at hk
     simp only [Bool.or_eq_true, beq_iff_eq, List.any_eq_true] at hk
     rcases hk with hk | ⟨cs, hcs, hce⟩
-    · subst hk; simp
+    · subst hk; simp [exclMatches]
     · have := h.exclFree cs hcs v hv
       rw [hce, hva] at this; exact this
   simp [hreg, hex]
@@ -562,5 +559,59 @@ theorem K_urun {sp : Spec} (hs : SoundFacts sp) : ∀ (us : List UEv) (s : St), 
   | cons u us ih =>
     intro s h hu
     exact ih _ (K_ustep hs h u (hu u (by simp))) (fun u' hu' => hu u' (by simp [hu']))
+
+/-! ### Failed calls of `@lock_neuron` functions -/
+
+theorem clearS_lock (sp : Spec) (excl : List String) (s : St) : (clearS sp excl s).lock = s.lock := by
+  unfold clearS clearBase classifyS
+  split <;> split <;> rfl
+
+/-- events that happen inside a locked call and do not touch the lock counter -/
+def lockNeutral : Ev → Bool
+  | .lock => false
+  | .unlock => false
+  | .copy => false
+  | _ => true
+
+theorem step_lock_neutral (sp : Spec) (s : St) (e : Ev) (h : lockNeutral e = true) : (step sp s e).lock = s.lock := by
+  cases e with
+  | isStale => exact (isStaleS_fields sp s).2.2.2.1
+  | copyOut => exact (isStaleS_fields sp s).2.2.2.1
+  | clear excl => exact clearS_lock sp excl s
+  | write a => rfl
+  | change v t => rfl
+  | classify => rfl
+  | retype t0 => simp only [step]; split <;> rfl
+  | lock => simp [lockNeutral] at h
+  | unlock => simp [lockNeutral] at h
+  | copy => simp [lockNeutral] at h
+  | pickle => rfl
+  | enter _ => rfl
+  | exit _ => rfl
+
+theorem run_lock_neutral (sp : Spec) : ∀ (es : List Ev) (s : St), (∀ e ∈ es, lockNeutral e = true) →
+    (run sp s es).lock = s.lock := by
+  intro es
+  induction es with
+  | nil => intro s _; rfl
+  | cons e es ih =>
+    intro s h
+    rw [run_cons, ih _ (fun e' he' => h e' (by simp [he']))]
+    exact step_lock_neutral sp s e (h e (by simp))
+
+/-- With the `finally:` in `lock_neuron`, a locked call leaves the lock counter where it was — whether the
+body returns or raises. -/
+theorem lockedCall_lock {sp : Spec} (hf : sp.lockFinally = true) (s : St) (body : List Ev)
+    (hb : ∀ e ∈ body, lockNeutral e = true) (raises : Bool) :
+    (run sp s (lockedCall sp body raises)).lock = s.lock := by
+  unfold lockedCall
+  simp only [hf, Bool.not_true, Bool.and_false, Bool.false_eq_true, if_false]
+  rw [run_append, run_append]
+  show (run sp (run sp (step sp s .lock) body) [Ev.unlock]).lock = s.lock
+  have h1 := run_lock_neutral sp body (step sp s .lock) hb
+  show (run sp (step sp s .lock) body).lock - 1 = s.lock
+  rw [h1]
+  show s.lock + 1 - 1 = s.lock
+  omega
 
 end Navis.Cache
